@@ -517,6 +517,19 @@ func (s *fnState) guardFacts(cond ssa.Value, onTrue bool, G valSet) {
 		}
 	case *ssa.BinOp:
 		x, y := c.X, c.Y
+		// int64(u) < 0 failing (or int64(u) >= 0 holding) for an unsigned u means u <= MaxInt64: a sign test of the
+		// reinterpreted value is an upper bound of the original
+		if cv, ok := x.(*ssa.Convert); ok && isZeroConst(y) {
+			_, fu, ok1 := intWidth(cv.X.Type())
+			_, tu, ok2 := intWidth(cv.Type())
+			if ok1 && ok2 && fu && !tu {
+				if (c.Op == token.LSS && !onTrue) || (c.Op == token.GEQ && onTrue) {
+					addBounded(G, cv.X)
+					addBounded(G, cv)
+					return
+				}
+			}
+		}
 		var xBoundedByY, yBoundedByX bool
 		switch c.Op {
 		case token.LSS, token.LEQ:
@@ -1059,4 +1072,9 @@ func byteOfSlice(v ssa.Value) bool {
 	}
 	ia, ok := u.X.(*ssa.IndexAddr)
 	return ok && isByteSlice(ia.X.Type())
+}
+
+func isZeroConst(v ssa.Value) bool {
+	c, ok := v.(*ssa.Const)
+	return ok && c.Value != nil && c.Value.ExactString() == "0"
 }
